@@ -42,6 +42,8 @@ def run(ctx):
     r4_iteration(ctx)
     from . import shared as _sh
     _sh.check_stage_loop_complete(ctx, 'R2')
+    _sh.check_copied_nodes_keep_stage(ctx, 'R2')
+    _sh.no_identity_comparison_of_numbers(ctx, 'R2', [f'{N.EXPORTER}.Exporter.export_string', f'{N.EXPORTER}.Exporter.export_options_validator'])
     # every range is exported from the same document: an export leaves nothing behind (no cached rows, no state) for the next
     from . import shared
     shared.effect_free(ctx, 'R5', [f'{N.PUBLIC}.dumps'],
